@@ -190,12 +190,12 @@ func c07Scenario64(c *Ctx) explore.Scenario {
 		}
 		crs, maxWrites = keep, 12
 	}
-	return &explore.Product{Name: "64-bit: inputs^2 x creation x cow switch x (register, write)", Dims: []int{len(pool), len(pool), len(crs), 3, 4, maxWrites}, Deadline: c.Budget(118, 1790),
+	return &explore.Product{Name: "64-bit: inputs^2 x creation x cow switch x (register, write)", Dims: []int{len(pool), len(pool), len(crs), 4, 4, maxWrites}, Deadline: c.Budget(118, 1790),
 		Run: func(idx []int) (string, *ev.Fail) {
 			aw, bw := pool[idx[0]].Build(), pool[idx[1]].Build()
 			a, b := &reg64{Name: "a", B: aw.B, M: aw.M}, &reg64{Name: "b", B: bw.B, M: bw.M}
 			switch idx[3] {
-			case 1:
+			case 1, 3:
 				a.B.SetCopyOnWrite(true)
 				b.B.SetCopyOnWrite(true)
 			}
@@ -203,12 +203,19 @@ func c07Scenario64(c *Ctx) explore.Scenario {
 			regs := []*reg64{a, b}
 			if cr.Three {
 				a.Third = third64()
-				if idx[3] == 1 {
+				if idx[3] == 1 || idx[3] == 3 {
 					a.Third.B.SetCopyOnWrite(true)
 				}
 				regs = append(regs, a.Third)
 			} else if idx[4] == 3 {
 				return "no-third-operand", nil
+			}
+			if idx[3] == 3 {
+				// cow switch 3: every operand has a live clone, so each of its buckets is flagged as shared
+				// when the creation runs; the clones are observed like every other bitmap
+				for _, r := range append([]*reg64(nil), regs...) {
+					regs = append(regs, &reg64{Name: r.Name + "-clone", B: r.B.Clone(), M: r.M.Clone()})
+				}
 			}
 			out, om, f := cr.F(a, b)
 			if f != nil {
@@ -231,6 +238,9 @@ func c07Scenario64(c *Ctx) explore.Scenario {
 				return "no-such-write", nil
 			}
 			t := regs[len(regs)-1] // idx[4] == 2: the newest bitmap (the result, or a after an in-place creation)
+			if out == nil {
+				t = a
+			}
 			if idx[4] < 2 {
 				t = regs[idx[4]]
 			} else if idx[4] == 3 {
